@@ -170,6 +170,24 @@ func c20Case(r *rand.Rand) Case {
 	if dom.VerifDump(d) != after {
 		fail = append(fail, "Serialize or a list accessor modified the representation of the document")
 	}
+	// plain values handed out by AsMap belong to the caller: scribbling on them (also inside empty
+	// maps and lists) is not a write to d, nor to any other document
+	if pn := guard(func() {
+		want := normGeneric(d.AsMap())
+		scribble(d.AsMap())
+		other := dom.Builder().FromMap(map[string]any{"e": map[string]any{}, "l": []any{map[string]any{}}})
+		if got := normGeneric(d.AsMap()); !reflect.DeepEqual(got, want) {
+			fail = append(fail, "writing into the value returned by AsMap() changed what AsMap() returns afterwards")
+		}
+		if got := normGeneric(other.AsMap()); !reflect.DeepEqual(got, normGeneric(map[string]any{"e": map[string]any{}, "l": []any{map[string]any{}}})) {
+			fail = append(fail, "writing into the value returned by AsMap() leaked into another document")
+		}
+	}); pn != "" {
+		fail = append(fail, "panic around AsMap: "+pn)
+	}
+	if dom.VerifDump(d) != after {
+		fail = append(fail, "writing into the value returned by AsMap() modified the representation of the document")
+	}
 	// a clone is a private copy: editing it (at any depth, lists inside lists included) is not a write to d
 	if pn := guard(func() {
 		cl := d.Clone()
@@ -185,6 +203,24 @@ func c20Case(r *rand.Rand) Case {
 	return Case{Kind: "read", Desc: map[string]any{"route": route, "read": rdop.desc, "doc": nodeToAny(d), "unchanged": unchanged},
 		Coq: "CRead " + mn + " (" + rdop.coq + ") (" + obs + ") " + gBool(unchanged), Fail: fail,
 		Nontrivial: strings.Contains(mn, "MCon false") || strings.Contains(mn, "MList false")}
+}
+
+// write into every map and list of a plain value
+func scribble(v any) {
+	switch x := v.(type) {
+	case map[string]any:
+		for _, c := range x {
+			scribble(c)
+		}
+		x["scribble"] = 1
+	case []any:
+		for i, c := range x {
+			scribble(c)
+			if _, isMap := c.(map[string]any); !isMap {
+				x[i] = "scribble"
+			}
+		}
+	}
 }
 
 // overlay reads: Lookup / LookupAny / Search / Merged / Layers / Walk / Serialize / LayerNames
@@ -219,7 +255,15 @@ func c20Overlay(r *rand.Rand) Case {
 		{"Search", func() { _ = ov.Search(dom.SearchEqual(1)) }},
 		{"Merged", func() { _ = ov.Merged(); _ = ov.Merged(dom.ListsMergeAppend()) }},
 		{"Layers", func() { _ = ov.Layers() }},
-		{"LayerNames", func() { _ = ov.LayerNames() }},
+		{"LayerNames", func() {
+			ns := ov.LayerNames() // documented to be a copy: reordering or overwriting it is the caller's business
+			for i, j := 0, len(ns)-1; i < j; i, j = i+1, j-1 {
+				ns[i], ns[j] = ns[j], ns[i]
+			}
+			if len(ns) > 0 {
+				ns[0] = "overwritten"
+			}
+		}},
 		{"Walk", func() { ov.Walk(func(l, p string, parent, n dom.Node) bool { return true }) }},
 		{"Serialize", func() { var b bytes.Buffer; _ = ov.Serialize(&b, dom.DefaultNodeEncoderFn, dom.DefaultYamlEncoder) }},
 		{"Merged+Serialize", func() {
@@ -337,7 +381,7 @@ func c20Concurrent(seed int64, tier string) ([]string, map[string]any) {
 func init() {
 	register(&Prop{
 		ID:   "C20",
-		Rule: "documents with empty containers and empty lists at any depth along 7 construction routes (builder, FromMap, loaded from YAML, merged, cloned, sealed, empty sealed) x one read-only call (Child, Children, Lookup, Flatten, Search, AsMap, Equals, SameAs, Clone; then Serialize and list accessors, then 8 random edits of a Clone()): the generic representation dump (hook dom.VerifDump: every field, nil-ness/len/cap of maps and slices) must be identical before and after, and the returned value equal to the content-only model; overlay-read: Lookup (incl. unknown layer), LookupAny, Search, Merged (both strategies), Layers, LayerNames, Walk, Serialize, and random edits of Layers() snapshots and their clones leave the overlay's dump unchanged (layers derived from each other, so they share structure at every depth, plus a fixed three-level overlap with lists in lists). Extra: 16 goroutines x random read sequences on one shared document + overlay views, observations equal to single-threaded ones; the same harness is built with -race and must produce no race report. Non-trivial: document has an unallocated (nil) map or slice. Distinct by Gallina term.",
+		Rule: "documents with empty containers and empty lists at any depth along 7 construction routes (builder, FromMap, loaded from YAML, merged, cloned, sealed, empty sealed) x one read-only call (Child, Children, Lookup, Flatten, Search, AsMap, Equals, SameAs, Clone; then Serialize and list accessors, then writes into the plain value AsMap() returned, then 8 random edits of a Clone()): the generic representation dump (hook dom.VerifDump: every field, nil-ness/len/cap of maps and slices) must be identical before and after, and the returned value equal to the content-only model; overlay-read: Lookup (incl. unknown layer), LookupAny, Search, Merged (both strategies), Layers, LayerNames, Walk, Serialize, and random edits of Layers() snapshots and their clones leave the overlay's dump unchanged (layers derived from each other, so they share structure at every depth, plus a fixed three-level overlap with lists in lists). Extra: 16 goroutines x random read sequences on one shared document + overlay views, observations equal to single-threaded ones; the same harness is built with -race and must produce no race report. Non-trivial: document has an unallocated (nil) map or slice. Distinct by Gallina term.",
 		Gen: func(r *rand.Rand, tier string, idx int) Case {
 			if idx%5 == 4 {
 				return c20Overlay(r)
